@@ -21,63 +21,7 @@ Core Lean only.
 namespace OPM.MacroCheck
 open OPM.Interp
 
-/-- `isinstance(child, NodeWithChildren) and not isinstance(child, MacroNode)`. -/
-def isContainer (p : Prog) (n : Nat) : Bool :=
-  match (node p n).kind with
-  | .program | .block _ | .watch _ | .alarm _ | .injected => true
-  | _ => false
 
-def callName (p : Prog) (n : Nat) : Option String :=
-  match (node p n).kind with
-  | .call nm => some nm
-  | _ => none
-
-/-- The work list of the repaired function: the `Call macro` instructions below the given nodes in
-    source (pre-)order, descending into Watch / Alarm / Block bodies but not into macro definitions.
-    `fuel` bounds the depth (the program size suffices). -/
-def callsOf (p : Prog) : Nat → List Nat → List String
-  | 0, _ => []
-  | fuel + 1, ns =>
-    ns.flatMap (fun c =>
-      match callName p c with
-      | some nm => [nm]
-      | none => if isContainer p c then callsOf p fuel (node p c).children else [])
-
-/-- Names called when the body of macro node `m` runs. -/
-def execCalls (p : Prog) (m : Nat) : List String := callsOf p p.size (node p m).children
-
-/-- The loop over the calls of one macro body.  `rec m' visited` is the recursive search of a callee.
-    Result: (chain of names ending in `name`, or `[]`; visited list afterwards); `none` = out of fuel. -/
-def scan (macros : List (String × Nat)) (name : String)
-    (rec : Nat → List Nat → Option (List String × List Nat)) :
-    List String → List Nat → Option (List String × List Nat)
-  | [], v => some ([], v)
-  | cn :: cs, v =>
-    if cn = name then some ([cn], v)
-    else match macros.lookup cn with
-      | none => scan macros name rec cs v
-      | some m' =>
-        if v.contains m' then scan macros name rec cs v
-        else match rec m' v with
-          | none => none
-          | some (path, v') => if path.isEmpty then scan macros name rec cs v' else some (cn :: path, v')
-
-/-- The repaired `macro_calling_macro(macros, name, visited)` for macro node `m`. -/
-def cascadeAux (p : Prog) (macros : List (String × Nat)) (name : String) :
-    Nat → Nat → List Nat → Option (List String × List Nat)
-  | 0, _, _ => none
-  | fuel + 1, m, v => scan macros name (cascadeAux p macros name fuel) (execCalls p m) (m :: v)
-
-/-- Every recursive call visits a macro node of the table that was not visited before. -/
-def cascadeFuel (macros : List (String × Nat)) : Nat := macros.length + 2
-
-/-- `macro_node.macro_calling_macro(macros)` as called by `visit_CallMacroNode` (fresh visited list). -/
-def cascade (p : Prog) (macros : List (String × Nat)) (name : String) (m : Nat) : Option (List String) :=
-  (cascadeAux p macros name (cascadeFuel macros) m []).map (·.1)
-
-/-- `cascade and macro_name in cascade`: the call is refused. -/
-def refuses (p : Prog) (macros : List (String × Nat)) (name : String) (m : Nat) : Option Bool :=
-  (cascade p macros name m).map (fun l => l.contains name)
 
 /-! ### the function as it stands (unchanged repository) -/
 
